@@ -1,0 +1,61 @@
+//go:build verif
+
+package in_toto
+
+import (
+	"crypto/x509"
+)
+
+// This file is only compiled with the build tag "verif". It adds exported
+// wrappers around unexported functions so that an external verification
+// harness can observe them. It does not change any behaviour.
+
+// VerifMatch exposes match (pattern matching without the warning print of Set.Filter).
+func VerifMatch(pattern, name string) (bool, error) { return match(pattern, name) }
+
+// VerifCheckCertConstraint exposes checkCertConstraint.
+func VerifCheckCertConstraint(attributeName string, constraints, values []string) error {
+	return checkCertConstraint(attributeName, constraints, values)
+}
+
+// VerifLoadPayload exposes loadPayload.
+func VerifLoadPayload(payloadBytes []byte) (any, error) { return loadPayload(payloadBytes) }
+
+// VerifValidateLayout exposes validateLayout.
+func VerifValidateLayout(layout Layout) error { return validateLayout(layout) }
+
+// VerifValidateLink exposes validateLink.
+func VerifValidateLink(link Link) error { return validateLink(link) }
+
+// VerifValidateKey exposes validateKey.
+func VerifValidateKey(key Key) error { return validateKey(key) }
+
+// VerifValidatePublicKey exposes validatePublicKey.
+func VerifValidatePublicKey(key Key) error { return validatePublicKey(key) }
+
+// VerifValidateKeyVal exposes validateKeyVal.
+func VerifValidateKeyVal(key Key) error { return validateKeyVal(key) }
+
+// VerifVerifyMatchRule exposes verifyMatchRule.
+func VerifVerifyMatchRule(ruleData map[string]string, srcArtifacts map[string]HashObj,
+	srcArtifactQueue Set, itemsMetadata map[string]Metadata) Set {
+	return verifyMatchRule(ruleData, srcArtifacts, srcArtifactQueue, itemsMetadata)
+}
+
+// VerifGenerateKeyID exposes (*Key).generateKeyID.
+func VerifGenerateKeyID(k *Key) error { return k.generateKeyID() }
+
+// VerifWaitErrToExitCode exposes waitErrToExitCode.
+func VerifWaitErrToExitCode(err error) int { return waitErrToExitCode(err) }
+
+// VerifCheckRoots exposes CertificateConstraint.checkRoots.
+func VerifCheckRoots(cc CertificateConstraint, cert *x509.Certificate, rootCAIDs []string,
+	rootCertPool, intermediateCertPool *x509.CertPool) error {
+	return cc.checkRoots(rootCAIDs, rootCertPool, intermediateCertPool)(cert)
+}
+
+// VerifDecodeAndParse exposes decodeAndParse (only the parsed object and error).
+func VerifDecodeAndParse(pemBytes []byte) (interface{}, error) {
+	_, obj, err := decodeAndParse(pemBytes)
+	return obj, err
+}
